@@ -40,12 +40,11 @@ theorem gatherDefault_eq (attrs : List Attr) : ∀ d,
   | cons a rest ih =>
     intro d
     simp only [List.foldl_cons]
-    rw [ih, ih (if a.isDefault = true ∧ a.name = "byte_order" then some a.val else none)]
-    cases List.foldl (fun d a => if a.isDefault = true ∧ a.name = "byte_order" then some a.val else d)
-      none rest with
+    rw [ih, ih (if a.isByteOrderDefault then some a.val else none)]
+    cases List.foldl (fun d a => if a.isByteOrderDefault then some a.val else d) none rest with
     | some v => rfl
     | none =>
-      by_cases h : a.isDefault = true ∧ a.name = "byte_order" <;> simp [h]
+      by_cases h : a.isByteOrderDefault <;> simp [h]
 
 theorem chainDefault_eq_nearest (path : List TypeInfo) : ∀ (scope : List Attr),
     chainDefault (gatherDefault scope none) path = nearestDefault (scope :: path.map (·.attrs)) := by
